@@ -181,16 +181,14 @@ BitLen(b, W) == Len(b.w) * W + b.k
 
 PAcc0(s0) == [s |-> s0, n |-> 0, ib |-> BW0, bp |-> BW0]
 
-StdPAcc(W) ==
-  LAMBDA a, c :
+StdPAcc(a, c, W) ==
     LET t == StdStep(a.s, c)
         b1 == IF PhiBpOpen(t.phi) = 1 THEN Put(a.bp, 1, W) ELSE a.bp
     IN [s |-> t.s, n |-> a.n + 1,
         ib |-> Put(a.ib, PhiIb(t.phi), W),
         bp |-> IF PhiBpClose(t.phi) = 1 THEN Put(b1, 0, W) ELSE b1]
 
-SimplePAcc(W) ==
-  LAMBDA a, c :
+SimplePAcc(a, c, W) ==
     LET t == SimpleStep(a.s, c)
     IN [s |-> t.s, n |-> a.n + 1,
         ib |-> Put(a.ib, t.ib, W),
@@ -198,8 +196,8 @@ SimplePAcc(W) ==
 
 Packed(a, W) == [s |-> a.s, n |-> a.n, ib |-> Fin(a.ib), bp |-> Fin(a.bp), bpn |-> BitLen(a.bp, W)]
 
-RunStdP(bytes, W) == Packed(FoldLeft(StdPAcc(W), PAcc0(InJson), bytes), W)
-RunSimpleP(bytes, W) == Packed(FoldLeft(SimplePAcc(W), PAcc0(InJson), bytes), W)
+RunStdP(bytes, W) == Packed(FoldLeft(LAMBDA a, c : StdPAcc(a, c, W), PAcc0(InJson), bytes), W)
+RunSimpleP(bytes, W) == Packed(FoldLeft(LAMBDA a, c : SimplePAcc(a, c, W), PAcc0(InJson), bytes), W)
 
 \* a W-bit word list extended with zero words to m words (the implementation's 64-bit
 \* words are 4 16-bit words each, so its list is padded to a multiple of 4)
